@@ -39,6 +39,41 @@ def producers_in(sv, prod_svs, depth=0):
 from ..framework import wants
 
 
+def cfg_error_after_producer(prog, b):
+    """'' if no error exit is reachable from the success edge of any producer call of b, a description if one is, None if the
+    shape (call, Try::branch, switch) is not recognised"""
+    for bi, t in b.calls():
+        if not is_producer(prog, t, {}):
+            continue
+        nxt = t.get("t")
+        if nxt is None:
+            return None
+        t2 = b.blocks[nxt]["term"]
+        if not (t2["k"] == "call" and "Try" in (t2["callee"].get("orig_pretty") or t2["callee"].get("pretty") or "") and t2.get("t") is not None):
+            return None
+        sw = b.blocks[t2["t"]]["term"]
+        if sw["k"] != "switch":
+            return None
+        cont = [tb for v, tb in sw["targets"] if v == 0]
+        if not cont:
+            return None
+        seen, stack = set(), [cont[0]]
+        while stack:
+            x = stack.pop()
+            if x in seen or b.blocks[x]["cleanup"]:
+                continue
+            seen.add(x)
+            tx = b.blocks[x]["term"]
+            if tx["k"] == "call" and "from_residual" in (tx["callee"].get("pretty") or ""):
+                return "a `?` at line %s" % (tx.get("span") or {}).get("l")
+            for st in b.blocks[x]["stmts"]:
+                rv = st["rv"]
+                if rv["k"] == "agg" and rv.get("adt") == "core::result::Result" and rv.get("vi") == 1 and st["place"].get("l") == 0:
+                    return "an Err built at line %s" % (st.get("span") or {}).get("l")
+            stack.extend(b.succs[x])
+    return ""
+
+
 def droppable_origin_ok(ctx, prog, b, v, depth=0):
     """the flag is the constant false, or the bool parameter of a public function (the application's own choice); a private helper's
     parameter is judged at every call site of that helper"""
@@ -77,7 +112,7 @@ def run(env, rep):
         "the constant false everywhere except where it is a public media function's own can_be_dropped parameter, and "
         "force_uncompressed is a constant; R5: the session clock is narrowed to u32 by a truncating cast (it wraps like the codec's "
         "timestamps); R6-R8: the serializer-level rules of C08 R1-R2, C01 R2-R3 and R5 (absolute vs delta timestamps per format) and C07 R5-R6 (chunk size announced before use, no empty chunk after a complete payload) that keep the stream decodable after dropped "
-        "packets and across multi-chunk messages.  Not decided: decodability of the whole stream by a conformant peer at every uptime.")
+        "packets and across multi-chunk messages; R9: in no session function (handle_input and the constructor apart) does an error return follow a successful serialize on the same path - a dropped packet leaves the serializer's header state ahead of the peer (known finding D18).  Not decided: decodability of the whole stream by a conformant peer at every uptime.")
     n_prod = 0
     n_fn = 0
     for which, ty in SESSIONS.items():
@@ -227,6 +262,56 @@ def run(env, rep):
                     outside.append(b.pretty)
     rep.check("C18.R3", "packet-built-only-by-serializer", not outside, "Packet values are constructed only inside chunk_io::serializer",
               "Packet is also constructed in %s, bypassing the serializer's header state" % sorted(set(outside)))
+    # ---- R9 a call that fails hands out every packet it serialized, or serialized none: on no path does an error return follow a
+    # successful serialize / set_max_chunk_size (the packet would be dropped while the serializer's header state has moved on, so the
+    # next packet on that chunk stream is compressed against a header the peer never received).  handle_input and the constructor are
+    # exempt: their errors end the connection / discard the session.
+    from .. import grammar
+    if wants(rep, "C18.R9"):
+        n9 = 0
+        for which, ty in SESSIONS.items():
+            for b in sorted(prog.bodies.values(), key=lambda b: b.key):
+                if not (b.kind == "assoc" and b.impl and b.impl.get("trait") is None and b.impl["self_ty"] == ty):
+                    continue
+                name = b.pretty.split("::")[-1]
+                if name in ("new", "handle_input") or not any(is_producer(prog, t, {}) for _bi, t in b.calls()):
+                    continue
+                ex = grammar.trace(env, b.key, "r")
+                if ex.truncated:
+                    # too many paths to replay (2^11 optional metadata keys): decide on the control-flow graph instead - from the
+                    # success edge of every producer call no error exit (a `?` propagation or an Err built in place) is reachable
+                    n9 += 1
+                    bad_cfg = cfg_error_after_producer(prog, b)
+                    if bad_cfg is None:
+                        rep.cannot_analyse("C18.R9", "%s::%s" % (which, name), "too many paths in %s and its producer calls are not followed by a `?`" % b.pretty, b.span)
+                    elif bad_cfg:
+                        rep.bad("C18.R9", "%s::%s|packet-lost-when:later-step-fails" % (which, name),
+                                "%s serializes a packet and an error exit is reachable afterwards (%s): the packet would be dropped while the serializer has moved on" % (b.pretty, bad_cfg), b.span)
+                    else:
+                        rep.ok("C18.R9", "%s::%s|no-packet-lost-on-error" % (which, name), "no error exit is reachable from the success edge of a serialize call (control-flow graph)", b.span, nontrivial=False)
+                    continue
+                n9 += 1
+                lost = set()
+                for p in ex.paths:
+                    prod = None
+                    for i, t in enumerate(p):
+                        if t[0] == "when" and re.match(r"^discr\(call\([^()]*::(serialize|set_max_chunk_size)\)\)$", t[1]) and t[2] == "0" and prod is None:
+                            prod = i
+                    if prod is None:
+                        continue
+                    rets = [t for t in p if t[0] == "returns"]
+                    text = rets[-1][1] if rets else ""
+                    if p[-1] == ("end", "err") or text.startswith("Err("):
+                        fails = [t for t in p[prod:] if t[0] == "when" and t[1].startswith("discr(call(") and t[2] == "1"]
+                        step = re.sub(r"^discr\(call\((.*)\)\)$", r"\1", fails[-1][1]).split("::")[-1] if fails else re.sub(r"\(.*", "", text)
+                        lost.add(step)
+                for step in sorted(lost):
+                    rep.bad("C18.R9", "%s::%s|packet-lost-when:%s-fails" % (which, name, step),
+                            "%s serializes a packet and can then fail in %s: the call returns the error, the packet is dropped, but the serializer's remembered headers have "
+                            "already advanced - the next packet on that chunk stream is compressed against a header the peer never received" % (b.pretty, step), b.span)
+                if not lost:
+                    rep.ok("C18.R9", "%s::%s|no-packet-lost-on-error" % (which, name), "no error return follows a successful serialize", b.span, nontrivial=False)
+        rep.floor("C18.R9", "session functions that serialize packets", n9, 20)
     # ---- R6 / R7 serializer-level rules that C18's statement also rests on
     from . import C08, C01
     if wants(rep, "C18.R6"):
@@ -235,4 +320,4 @@ def run(env, rep):
         C01.run(env, PrefixReport(rep, "C01.", "C18.R7.", only=("C01.R2", "C01.R3", "C01.R5")))
     from . import C07
     if wants(rep, "C18.R8"):
-        C07.run(env, PrefixReport(rep, "C07.", "C18.R8.", only=("C07.R5", "C07.R6")))
+        C07.run(env, PrefixReport(rep, "C07.", "C18.R8.", only=("C07.R2", "C07.R5", "C07.R6")))
